@@ -428,7 +428,7 @@ def standalone_program(case, with_main=True):
 
 
 def write_replay(prop, case, what):
-    d = os.path.join(VERIF, 'replays', prop)
+    d = os.path.join(os.environ.get('VERIF_REPLAY_DIR', os.path.join(VERIF, 'replays')), prop)
     os.makedirs(d, exist_ok=True)
     h = hashlib.sha1(case.key.encode()).hexdigest()[:12]
     p = os.path.join(d, h + '.rs')
@@ -512,8 +512,9 @@ class Verdict:
         ev = {'property_id': self.prop, 'tier': self.tier, 'seed': self.seed, 'level': 'model_checking',
               'coverage': cov, 'assumptions': self.assumptions, 'wall_s': round(time.time() - self.t0, 2),
               'violations': len(self.violations)}
-        os.makedirs(os.path.join(VERIF, 'evidence'), exist_ok=True)
-        with open(os.path.join(VERIF, 'evidence', self.prop + '.json'), 'w') as f:
+        evdir = os.environ.get('VERIF_EVIDENCE_DIR', os.path.join(VERIF, 'evidence'))
+        os.makedirs(evdir, exist_ok=True)
+        with open(os.path.join(evdir, self.prop + '.json'), 'w') as f:
             json.dump(ev, f, indent=1)
         log('[%s] tier=%s states=%d transitions=%d evaluations=%d nontrivial=%d validated=%d blocked=%d violations=%d known=%d wall=%.1fs' % (
             self.prop, self.tier, cov['states'], cov['transitions'], cov['evaluations'], cov['distinct_nontrivial'],
